@@ -27,7 +27,8 @@ def describe(tier):
                 "entry at each position). Oracle R7: discriminators in document order, exactly once, nothing below a forbidden node; the "
                 "status of every segment-level node and free-text element per the two documented tables incl. FILLED/EMPTY suffix; "
                 "NotImplementedError iff a VISITED MUSS/prefix node is undetermined. The node's own evaluation comes from evaluating its "
-                "expression alone with the real evaluate_ahb_expression_tree. Also through validate_segment_level with a segment group and with a segment as root. (d) E3: "
+                "expression alone with the real evaluate_ahb_expression_tree. Also through validate_segment_level with a segment group and with a segment as root, and through validate_segment_group / "
+                "validate_segment called DIRECTLY with each documented parent status (none, required, optional) for all chain labellings. (d) E3: "
                 f"{len(ORD_SHAPES)} shapes with siblings x {2 * len(ORD_MENU)} labellings with SUSPENDING requirement / format / hint evaluators under all completion orders "
                 "(quick: <= 2 deviations from oldest-first) on the virtual event loop: every schedule's result list equals the zero-yield run and R7. Non-trivial = trees with "
                 ">= 3 nodes.",
@@ -59,6 +60,9 @@ def plan(tier, seed):
     # siblings that share a discriminator (legal: three DTM segments, two SG12 groups): every shape with <= 5 nodes
     for si in range(len(list(T.shapes(5 if tier == "quick" else 6, 2)))):
         items.append({"fam": "samenames", "shape": si, "nmax": 5 if tier == "quick" else 6})
+    # the segment-group / segment validators called directly with the parent status a caller hands in
+    for first in range(len(H.CHAIN_MENU)):
+        items.append({"fam": "direct", "first": first, "cer": first % b["cers_chain"]})
     # suspending evaluators: all completion orders (bounded for the larger shapes)
     for si in range(len(ORD_SHAPES)):
         for rot in range(len(ORD_MENU)):
@@ -141,7 +145,7 @@ def _rename_same(groups):
     return groups
 
 
-def check_case(shape, exprs, cer, soll, entry="deep", variant=0, same_names=False):
+def check_case(shape, exprs, cer, soll, entry="deep", variant=0, same_names=False, parent=None):
     H.init()
     groups = H.model_from(shape, exprs, variant)
     if same_names:
@@ -156,13 +160,17 @@ def check_case(shape, exprs, cer, soll, entry="deep", variant=0, same_names=Fals
         if not segs:
             return []
         use = segs[:1]
-    got = H.V.run_validation(use, H.env(cer), soll, entry=entry)
-    diff = H.compare(use, cer, soll, got)
+    if entry == "group_direct":
+        use = groups[:1]
+    elif entry == "segment_direct":
+        use = [groups[0]["segments"][0]]
+    got = H.V.run_validation(use if entry != "segment_direct" else groups, H.env(cer), soll, entry=entry, parent=parent)
+    diff = H.compare(use, cer, soll, got, parent=parent)
     if diff is None:
         return []
     kind, exp, obs = diff
     return [{"kind": kind, "case": {"shape": shape, "exprs": list(exprs), "cer": cer, "soll_is_required": soll, "entry": entry,
-                                    "variant": variant, "same_names": same_names},
+                                    "variant": variant, "same_names": same_names, "parent": parent},
              "expected": exp, "observed": obs, "msg": f"exprs={list(exprs)} soll_is_required={soll}"}]
 
 
@@ -207,6 +215,17 @@ def run_item(item):
             if exprs[:2] == (H.CHAIN_MENU[0], H.CHAIN_MENU[0]):
                 for soll in (True, False):
                     _acc(r, check_case(CHAIN_SHAPE, exprs, item["cer"], soll, entry="segment_root"), 2, {"chain": list(exprs), "entry": "segment_root"})
+    elif fam == "direct":
+        seg_shape = (("G", (), (("S", ("F", "P")),)),)
+        for rest in itertools.product(H.CHAIN_MENU, repeat=3):
+            exprs = (H.CHAIN_MENU[item["first"]],) + rest
+            for parent in ("IS_REQUIRED", "IS_OPTIONAL", None):
+                for soll in (True, False):
+                    _acc(r, check_case(CHAIN_SHAPE, exprs, item["cer"], soll, entry="group_direct", parent=parent), 4,
+                         {"chain": list(exprs), "entry": "group_direct", "parent": parent})
+                    if rest[2] == H.CHAIN_MENU[0]:
+                        _acc(r, check_case(seg_shape, ("Muss",) + exprs[:3], item["cer"], soll, entry="segment_direct", parent=parent, variant=1), 3,
+                             {"segment": list(exprs[:3]), "entry": "segment_direct", "parent": parent})
     elif fam in ("tree4", "tree3"):
         shape = [s for s in T.shapes(item["nmax"], item["nmin"])][item["shape"]]
         n = T.count_nodes(shape)
@@ -263,4 +282,4 @@ def replay(case):
         out = base if case.get("zero_yield") else observe(vloop.run_schedule(factory_for(False), case["choices"]))
         return [{"kind": k, "case": case, "expected": e, "observed": o} for k, e, o in _orders_violations(item, groups, out, base)]
     return check_case(_tup(case["shape"]), case["exprs"], case["cer"], case["soll_is_required"], case.get("entry", "deep"),
-                      case.get("variant", 0), case.get("same_names", False))
+                      case.get("variant", 0), case.get("same_names", False), case.get("parent"))
